@@ -45,6 +45,16 @@ impl QueryBatchStream {
     }
 }
 
+/// Verification hook (compiled only with `--cfg sneldb_verif`): a stream over an arbitrary
+/// receiver, so the response writers can be driven with generated batches (the constructor
+/// is crate-private).
+#[cfg(sneldb_verif)]
+impl QueryBatchStream {
+    pub fn verif_from_receiver(schema: Arc<BatchSchema>, receiver: BatchReceiver) -> Self {
+        Self::new(schema, receiver, Vec::new())
+    }
+}
+
 impl Drop for QueryBatchStream {
     fn drop(&mut self) {
         while let Some(task) = self.tasks.pop() {
